@@ -564,6 +564,10 @@ func (env *Env) selector(x *ast.SelectorExpr) EVal {
 			return EVal{V: Val{f.Select(env.tr.get(st, "ev.dev"), v.Ev)}, T: types.Typ[types.Uint64]}
 		case "epoch":
 			return EVal{V: Val{f.Select(env.tr.get(st, "ev.epoch"), v.Ev)}, T: types.Typ[types.Uint64]}
+		case "res":
+			return EVal{V: Val{f.Select(env.tr.get(st, "ev.res"), v.Ev)}, T: types.Typ[types.Int64]}
+		case "failed":
+			return env.boolVal(f.Neq(f.Select(env.tr.get(st, "ev.err"), v.Ev), f.BVi(64, 0)))
 		}
 		env.fail("unknown event attribute %s", x.Sel.Name)
 	}
@@ -806,10 +810,10 @@ func (env *Env) callExpr(x *ast.CallExpr) EVal {
 		env.fail("len of %s", v.T)
 	case "old":
 		argN(1)
-		if env.old == nil {
-			env.fail("old() not available here")
-		}
 		sub := *env
+		if env.old == nil {
+			sub.old = env.st
+		}
 		sub.inOld = true
 		return sub.eval(x.Args[0])
 	case "implies":
@@ -839,7 +843,7 @@ func (env *Env) callExpr(x *ast.CallExpr) EVal {
 		var rng *Term
 		if lo.Ghost == "int" || hi.Ghost == "int" {
 			lo, hi = env.asGhostInt(lo), env.asGhostInt(hi)
-			bv = f.BoundVar(id.Name, SInt)
+			bv = f.BoundVar(id.Name, GhostIdxSort())
 			sub.vars[id.Name] = EVal{V: Val{bv}, Ghost: "int"}
 			rng = f.And(f.ILe(lo.V[0], bv), f.ILt(bv, hi.V[0]))
 		} else {
@@ -917,6 +921,11 @@ func (env *Env) callExpr(x *ast.CallExpr) EVal {
 			env.fail("fresh() not available here")
 		}
 		return env.boolVal(f.And(f.ULe(env.allocAtEntry, v.V[k]), f.ULt(v.V[k], env.tr.get(env.st, "alloc"))))
+	case "written":
+		// written(w): total number of bytes passed to w.Write so far (ghost counter of an io.Writer)
+		argN(1)
+		v := env.eval(x.Args[0])
+		return EVal{V: Val{f.Select(env.tr.get(env.curState(), "wcount"), env.identity(v))}, T: types.Typ[types.Int64]}
 	case "ro":
 		argN(1)
 		v := env.eval(x.Args[0])
